@@ -54,6 +54,14 @@ theorem idxOf_append_left (l1 l2 : List Nat) (a : Nat) (h : a ∈ l1) :
     (l1 ++ l2).idxOf a = l1.idxOf a := by
   rw [List.idxOf_append]; simp [h]
 
+theorem mem_le_sum (l : List Nat) (t : Nat) (h : t ∈ l) : t ≤ l.sum := by
+  induction l with
+  | nil => simp at h
+  | cons x xs ih =>
+    rcases List.mem_cons.mp h with rfl | h'
+    · simp
+    · have := ih h'; simp; omega
+
 /-! ## Part 1: banded asset problems, restricted and assembled per step list -/
 
 theorem varAtSteps_iff (M : List MapRow) (I : List Nat) (v : Nat) :
@@ -2003,13 +2011,206 @@ theorem simple_banded (p : ContractP) (g : Grid) (prices : Prices) (fullT : Nat)
 def restrictRows (a : AssetProblem) (I : List Nat) (rows : List Row) : List Row :=
   (rows.filter fun r => r.coeffs.all fun q => (a.keep I).contains q.1).map (Row.rename fun v => (a.keep I).idxOf v)
 
+theorem getD_map_lt {α β} (L : List α) (f : α → β) (j : Nat) (da : α) (db : β) (h : j < L.length) :
+    (L.map f).getD j db = f (L.getD j da) := by
+  simp [List.getD_eq_getElem?_getD, h]
+
+theorem pick_pts (g : Grid) (I : List Nat) (hg : g.Ok) :
+    (g.pick I).pts = (pos g.idx I).map fun i => g.pts.getD i 0 :=
+  (pos_map_getD g.idx I g.pts 0 hg.1.symm).symm
+
+theorem pick_dt (g : Grid) (I : List Nat) (hg : g.Ok) :
+    (g.pick I).dt = (pos g.idx I).map fun i => g.dt.getD i 0 :=
+  (pos_map_getD g.idx I g.dt 0 (by rw [hg.2.1, hg.1])).symm
+
+theorem pick_idx (g : Grid) (I : List Nat) :
+    (g.pick I).idx = (pos g.idx I).map fun i => I.idxOf (g.idx.getD i 0) := by
+  show (sel _ g.idx).map _ = _
+  rw [pickMask_eq, ← pos_map_getD g.idx I g.idx 0 rfl, List.map_map]
+  rfl
+
+/-- covered positions of the picked grid, as positions of the asset grid -/
+theorem coveredPos_pick (g : Grid) (I : List Nat) (hg : g.Ok) (s e : Int) :
+    (coveredPos (g.pick I) s e).map (fun j => (pos g.idx I).getD j 0) =
+      (coveredPos g s e).filter fun i => I.contains (g.idx.getD i 0) := by
+  have hT : (g.pick I).T = (pos g.idx I).length := pick_T g I hg
+  unfold coveredPos
+  rw [hT]
+  have e1 : ((List.range (pos g.idx I).length).filter fun j =>
+      decide (s ≤ (g.pick I).pts.getD j 0) && decide ((g.pick I).pts.getD j 0 < e)) =
+      (List.range (pos g.idx I).length).filter fun j =>
+        (fun i => decide (s ≤ g.pts.getD i 0) && decide (g.pts.getD i 0 < e)) ((pos g.idx I).getD j 0) := by
+    apply List.filter_congr
+    intro j hj
+    rw [pick_pts g I hg, getD_map_lt _ _ j 0 0 (List.mem_range.mp hj)]
+  rw [e1, filter_range_getD (fun i => decide (s ≤ g.pts.getD i 0) && decide (g.pts.getD i 0 < e)) 0 0
+    (pos g.idx I) (pos g.idx I) rfl, sel_map_self']
+  unfold pos
+  rw [List.filter_filter, List.filter_filter, hg.1]
+  apply List.filter_congr
+  intro i _
+  exact Bool.and_comm _ _
+
+/-- the mapping rows of the restricted problem at a re-based step -/
+theorem rowsAt_restrict (a : AssetProblem) (I : List Nat) (node : Option String) (t : Nat) (ht : t ∈ I) :
+    rowsAt (a.restrictTo I).mapping node (I.idxOf t) =
+      (rowsAt a.mapping node t).map fun m => { m with var := (a.keep I).idxOf m.var, step := I.idxOf m.step } := by
+  unfold rowsAt
+  show List.filter _ ((a.mapping.filter _).map _) = _
+  rw [List.filter_map, List.filter_filter]
+  congr 1
+  apply List.filter_congr
+  intro m _
+  simp only [Function.comp]
+  have hnode : nodeOK node { m with var := (a.keep I).idxOf m.var, step := I.idxOf m.step } = nodeOK node m := by
+    cases node <;> rfl
+  rw [hnode, Bool.eq_iff_iff]
+  simp only [Bool.and_eq_true, beq_iff_eq, List.contains_iff_mem]
+  constructor
+  · rintro ⟨⟨h1, h2⟩, h3⟩
+    exact ⟨(idxOf_inj_of_mem I _ _ h3 h1), h2⟩
+  · rintro ⟨h1, h2⟩
+    exact ⟨⟨by rw [h1], h2⟩, h1 ▸ ht⟩
+
+theorem flatMap_congr_mem {α β} (l : List α) (f g : α → List β) (h : ∀ x ∈ l, f x = g x) :
+    l.flatMap f = l.flatMap g := by
+  induction l with
+  | nil => rfl
+  | cons x xs ih =>
+    rw [List.flatMap_cons, List.flatMap_cons, h x (by simp), ih (fun y hy => h y (by simp [hy]))]
+
+theorem filterMap_filter_map {α β γ} (f : α → Option β) (f' : α → Option γ) (p : β → Bool) (h : β → γ) (l : List α)
+    (hf : ∀ x ∈ l, f' x = ((f x).filter p).map h) : l.filterMap f' = ((l.filterMap f).filter p).map h := by
+  induction l with
+  | nil => rfl
+  | cons x xs ih =>
+    rw [List.filterMap_cons, List.filterMap_cons, hf x (by simp), ih (fun y hy => hf y (by simp [hy]))]
+    cases hx : f x with
+    | none => simp
+    | some b =>
+      by_cases hp : p b = true
+      · simp [Option.filter, hp]
+      · simp [Option.filter, hp]
+
+/-- the take row of one period on the picked grid -/
+theorem takeRow_pick (kind : RowKind) (u : Nat) (g : Grid) (a : AssetProblem) (Tref : Nat) (I : List Nat)
+    (node : Option String) (tk : Take) (hg : g.Ok) (hB : Banded a Tref) (htk : takeInside g I tk = true) :
+    takeRow kind u (g.pick I) (a.restrictTo I).mapping node tk =
+      ((takeRow kind u g a.mapping node tk).filter fun r => r.coeffs.all fun q => (a.keep I).contains q.1).map
+        (Row.rename fun v => (a.keep I).idxOf v) := by
+  have hcovJ := coveredPos_pick g I hg tk.1 tk.2.1
+  have hPmem : ∀ j ∈ coveredPos (g.pick I) tk.1 tk.2.1, j < (pos g.idx I).length := by
+    intro j hj
+    have := List.mem_range.mp (List.mem_filter.mp hj).1
+    rwa [pick_T g I hg] at this
+  have hstepJ : ∀ j, j < (pos g.idx I).length →
+      (g.pick I).idx.getD j 0 = I.idxOf (g.idx.getD ((pos g.idx I).getD j 0) 0) := by
+    intro j hj
+    rw [pick_idx, getD_map_lt _ _ j 0 0 hj]
+  have hposI : ∀ j, j < (pos g.idx I).length → g.idx.getD ((pos g.idx I).getD j 0) 0 ∈ I := by
+    intro j hj
+    have : (pos g.idx I).getD j 0 ∈ pos g.idx I := by
+      rw [List.getD_eq_getElem?_getD, List.getElem?_eq_getElem hj]
+      exact List.getElem_mem hj
+    exact ((mem_pos g.idx I _).mp this).2
+  -- rows at a covered position of the picked grid
+  have hrows : ∀ j ∈ coveredPos (g.pick I) tk.1 tk.2.1,
+      rowsAt (a.restrictTo I).mapping node ((g.pick I).idx.getD j 0) =
+        (rowsAt a.mapping node (g.idx.getD ((pos g.idx I).getD j 0) 0)).map
+          fun m => { m with var := (a.keep I).idxOf m.var, step := I.idxOf m.step } := by
+    intro j hj
+    rw [hstepJ j (hPmem j hj)]
+    exact rowsAt_restrict a I node _ (hposI j (hPmem j hj))
+  unfold takeInside at htk
+  simp only [Bool.or_eq_true, List.all_eq_true, List.mem_map] at htk
+  rcases htk with hin | hout
+  · -- all covered steps belong to the interval
+    have hfilt : ((coveredPos g tk.1 tk.2.1).filter fun i => I.contains (g.idx.getD i 0)) = coveredPos g tk.1 tk.2.1 := by
+      apply List.filter_eq_self.mpr
+      intro i hi
+      exact hin _ ⟨i, hi, rfl⟩
+    rw [hfilt] at hcovJ
+    have hsel : takeSel (g.pick I) (a.restrictTo I).mapping node tk.1 tk.2.1 =
+        (takeSel g a.mapping node tk.1 tk.2.1).map
+          fun m => { m with var := (a.keep I).idxOf m.var, step := I.idxOf m.step } := by
+      unfold takeSel
+      rw [← hcovJ, List.flatMap_map, List.map_flatMap]
+      exact flatMap_congr_mem _ _ _ (fun j hj => hrows j hj)
+    have hsteps : ((takeSteps (g.pick I) (a.restrictTo I).mapping node tk.1 tk.2.1).map fun j => (g.pick I).dt.getD j 0) =
+        (takeSteps g a.mapping node tk.1 tk.2.1).map fun i => g.dt.getD i 0 := by
+      unfold takeSteps
+      rw [← hcovJ, List.filter_map, List.map_map]
+      have e1 : ((coveredPos (g.pick I) tk.1 tk.2.1).filter fun j =>
+          !(rowsAt (a.restrictTo I).mapping node ((g.pick I).idx.getD j 0)).isEmpty) =
+          (coveredPos (g.pick I) tk.1 tk.2.1).filter
+            ((fun i => !(rowsAt a.mapping node (g.idx.getD i 0)).isEmpty) ∘ fun j => (pos g.idx I).getD j 0) := by
+        apply List.filter_congr
+        intro j hj
+        simp only [Function.comp]
+        rw [hrows j hj]
+        simp
+      rw [e1]
+      apply List.map_congr_left
+      intro j hj
+      have hj' := hPmem j (List.mem_filter.mp hj).1
+      simp only [Function.comp]
+      rw [pick_dt g I hg, getD_map_lt _ _ j 0 0 hj']
+    unfold takeRow
+    simp only [hsel, hsteps, List.isEmpty_map]
+    by_cases hemp : (takeSel g a.mapping node tk.1 tk.2.1).isEmpty = true
+    · simp [hemp]
+    · simp only [hemp, Bool.false_eq_true, if_false, Option.filter]
+      have hall : ((takeSel g a.mapping node tk.1 tk.2.1).map fun m => (m.var, m.factor)).all
+          (fun q => (a.keep I).contains q.1) = true := by
+        rw [List.all_eq_true]
+        intro q hq
+        obtain ⟨m, hm, rfl⟩ := List.mem_map.mp hq
+        obtain ⟨hmM, _, i, hi, hs⟩ := mem_takeSel hm
+        apply List.contains_iff_mem.mpr
+        exact (banded_var_mem_keep hB I m hmM).mpr (hs ▸ List.contains_iff_mem.mp (hin _ ⟨i, hi, rfl⟩))
+      simp only [hall, if_true, Option.map_some, Row.rename, List.map_map]
+      rfl
+  · -- no covered step belongs to the interval
+    have hfilt : ((coveredPos g tk.1 tk.2.1).filter fun i => I.contains (g.idx.getD i 0)) = [] := by
+      apply List.filter_eq_nil_iff.mpr
+      intro i hi
+      have := hout _ ⟨i, hi, rfl⟩
+      simpa using this
+    rw [hfilt] at hcovJ
+    have hcov0 : coveredPos (g.pick I) tk.1 tk.2.1 = [] := List.map_eq_nil_iff.mp hcovJ
+    rw [takeRow_none_of_uncovered hcov0]
+    cases hr : takeRow kind u g a.mapping node tk with
+    | none => rfl
+    | some r =>
+      obtain ⟨hne, _, hc, _⟩ := takeRow_some hr
+      obtain ⟨m0, rest, hsel⟩ := List.exists_cons_of_ne_nil hne
+      have hm0 : m0 ∈ takeSel g a.mapping node tk.1 tk.2.1 := by rw [hsel]; simp
+      obtain ⟨hm0M, _, i0, hi0, hs0⟩ := mem_takeSel hm0
+      have hnot : m0.var ∉ a.keep I := by
+        intro h
+        have := (banded_var_mem_keep hB I m0 hm0M).mp h
+        have h2 := hout _ ⟨i0, hi0, rfl⟩
+        rw [← hs0] at h2
+        simp [this] at h2
+      have hall : (r.coeffs.all fun q => (a.keep I).contains q.1) = false := by
+        rw [hc, hsel]
+        simp only [List.map_cons, List.all_cons, Bool.and_eq_false_iff]
+        left
+        rw [Bool.eq_false_iff]
+        intro h
+        exact hnot (List.contains_iff_mem.mp h)
+      show none = Option.map _ (Option.filter (fun r => r.coeffs.all fun q => (a.keep I).contains q.1) (some r))
+      rw [Option.filter_some, hall]
+      rfl
+
 /-- the take rows of the restricted problem are the restricted take rows, when no period reaches across the cut -/
 theorem defineRestr_pick (kind : RowKind) (u : Nat) (g : Grid) (a : AssetProblem) (Tref : Nat) (I : List Nat)
     (node : Option String) (takes : List Take) (hg : g.Ok) (hB : Banded a Tref)
     (htk : ∀ tk ∈ takes, takeInside g I tk = true) :
     defineRestr kind u (g.pick I) (a.restrictTo I).mapping node takes =
       restrictRows a I (defineRestr kind u g a.mapping node takes) := by
-  sorry
+  unfold defineRestr restrictRows
+  exact filterMap_filter_map _ _ _ _ takes (fun tk h => takeRow_pick kind u g a Tref I node tk hg hB (htk tk h))
 
 theorem restrictTo_addRows (a : AssetProblem) (rows : List Row) (I : List Nat) :
     ({ a with rows := a.rows ++ rows } : AssetProblem).restrictTo I =
@@ -2755,5 +2956,171 @@ theorem buildSpec_rowsInside (a : AssetSpec) (ref : Grid) (prices : Prices) (u :
         (fun I hI => hneg _ I (fun tk htk => (hst I hI).2 tk (List.mem_append_right _ htk))) r h
     · exact takeRows_inside .U u _ a0 ref.T _ _ Is hB hcov
         (fun I hI => hneg _ I (fun tk htk => (hst I hI).2 tk (List.mem_append_left _ htk))) r h
+
+/-! ### the theorem for builder portfolios -/
+
+theorem setupPortfolio_ok {specs : List AssetSpec} {grid : Grid} {prices : Prices} {u : Nat} {skip : List String}
+    {U : Problem} (h : setupPortfolio specs grid prices u skip = .ok U) :
+    ∃ as, buildAll specs grid prices u = .ok as ∧ U = assemble as grid.idx skip := by
+  unfold setupPortfolio at h
+  simp only [bind, Except.bind, pure, Except.pure] at h
+  cases has : buildAll specs grid prices u with
+  | error e => simp [has] at h
+  | ok as =>
+    simp only [has] at h
+    injection h with h
+    exact ⟨as, rfl, h.symm⟩
+
+theorem splitHyps_spec (specs : List AssetSpec) (ref : Grid) (cuts : List Int) (prices : Prices)
+    (h : splitHyps specs ref cuts prices = true) :
+    ref.idx = List.range ref.T ∧ ref.dt.length = ref.T ∧ (∀ a ∈ specs, a.df.length = ref.T) ∧
+    (∀ kv ∈ prices, kv.2.length = ref.T) ∧ isPartition ((splitPairs cuts).map (intervalSteps ref)) ref.T = true ∧
+    ∀ a ∈ specs, ∀ I ∈ (splitPairs cuts).map (intervalSteps ref),
+      specStable a (({ ref with df := a.df } : Grid).restrict a.start a.stop) I prices = true := by
+  unfold splitHyps at h
+  simp only [Bool.and_eq_true, decide_eq_true_eq, List.all_eq_true] at h
+  obtain ⟨⟨⟨⟨⟨⟨h1, h2⟩, _⟩, h4⟩, h5⟩, h6⟩, h7⟩ := h
+  exact ⟨h1, h2, h4, h5, h6, h7⟩
+
+/-- **For a portfolio of contracts and transports the split set-up IS the unsplit problem**, up to the explicit
+    matching of the variables: no certificate needed.  (The interval problems are those of the general theorem.) -/
+theorem builders_split (specs : List AssetSpec) (ref : Grid) (cuts : List Int) (prices : Prices) (u : Nat)
+    (skip : List String) (U : Problem) (hH : splitHyps specs ref cuts prices = true)
+    (hU : setupPortfolio specs ref prices u skip = .ok U) (hpos : 0 < U.n) :
+    ∃ as, buildAll specs ref prices u = .ok as ∧ U = assemble as (List.range ref.T) skip ∧
+      setupSplit specs ref cuts prices u skip =
+        .ok ((((splitPairs cuts).map (intervalSteps ref)).map (intervalProblem as skip)).filter fun P => P.n != 0) ∧
+      splitWitness U ((((splitPairs cuts).map (intervalSteps ref)).map (intervalProblem as skip)).filter fun P => P.n != 0)
+        (splitPerm U ((splitPairs cuts).map (intervalSteps ref))) = true := by
+  obtain ⟨hidx, hdt, hdf, hprices, hpart, hst⟩ := splitHyps_spec specs ref cuts prices hH
+  obtain ⟨as, has, rfl⟩ := setupPortfolio_ok hU
+  rw [hidx] at hpos ⊢
+  have hB := buildAll_banded specs ref prices u as hidx hdt hdf has
+  obtain ⟨hcov, _⟩ := isPartition_spec _ _ hpart
+  have hR : ∀ A ∈ as, RowsInside A ((splitPairs cuts).map (intervalSteps ref)) := by
+    intro A hA
+    obtain ⟨a, ha, hb⟩ := mapM_mem _ specs as has A hA
+    exact buildSpec_rowsInside a ref prices u A _ hidx hdt (hdf a ha) hcov (fun I hI => hst a ha I hI) hb
+  have hw := witness_of_banded as ref.T ((splitPairs cuts).map (intervalSteps ref)) skip hB hpart hR
+  have hw' := splitWitness_filter _ _ _ (by
+    intro P hP
+    obtain ⟨I, _, rfl⟩ := List.mem_map.mp hP
+    exact intervalProblem_rows_ne as ref.T hB skip I) hw
+  refine ⟨as, has, rfl, setupSplit_eq specs ref cuts prices u skip as hidx hdt hdf hprices hst has ?_, hw'⟩
+  -- some interval has a variable, because the unsplit problem has one
+  intro hnil
+  have hperm := splitPerm_isPerm as ref.T hB _ hpart
+  have hlen : (((splitPairs cuts).map (intervalSteps ref)).flatMap fun I => (assembleFrom 0 as).keep I).length =
+      (assembleFrom 0 as).n := by
+    unfold isPermOf at hperm
+    simp only [Bool.and_eq_true, decide_eq_true_eq] at hperm
+    exact hperm.1.1.1
+  have hall : ∀ I ∈ (splitPairs cuts).map (intervalSteps ref), (assembleFrom 0 as).keep I = [] := by
+    intro I hI
+    have hmem : intervalProblem as skip I ∈ ((splitPairs cuts).map (intervalSteps ref)).map (intervalProblem as skip) :=
+      List.mem_map_of_mem hI
+    have : ¬ ((intervalProblem as skip I).n != 0) = true := by
+      intro hn
+      have : intervalProblem as skip I ∈ (((splitPairs cuts).map (intervalSteps ref)).map (intervalProblem as skip)).filter
+          fun P => P.n != 0 := List.mem_filter.mpr ⟨hmem, hn⟩
+      rw [hnil] at this
+      simp at this
+    have hn0 : (intervalProblem as skip I).n = 0 := by simpa using this
+    rw [interval_n as ref.T hB skip I] at hn0
+    exact List.eq_nil_of_length_eq_zero hn0
+  have : (((splitPairs cuts).map (intervalSteps ref)).flatMap fun I => (assembleFrom 0 as).keep I) = [] := by
+    apply List.eq_nil_iff_forall_not_mem.mpr
+    intro v hv
+    obtain ⟨I, hI, hvI⟩ := List.mem_flatMap.mp hv
+    rw [hall I hI] at hvI
+    simp at hvI
+  rw [this] at hlen
+  have hn : (assemble as (List.range ref.T) skip).n = (assembleFrom 0 as).n := assemble_n _ _ _
+  rw [hn, ← hlen] at hpos
+  simp at hpos
+
+theorem builders_witness (specs : List AssetSpec) (ref : Grid) (cuts : List Int) (prices : Prices) (u : Nat)
+    (skip : List String) (U : Problem) (hH : splitHyps specs ref cuts prices = true)
+    (hU : setupPortfolio specs ref prices u skip = .ok U) (hpos : 0 < U.n) :
+    ∃ ps, setupSplit specs ref cuts prices u skip = .ok ps ∧
+      splitWitness U ps (splitPerm U ((splitPairs cuts).map (intervalSteps ref))) = true := by
+  obtain ⟨as, _, _, h3, h4⟩ := builders_split specs ref cuts prices u skip U hH hU hpos
+  exact ⟨_, h3, h4⟩
+
+/-- every step index of a grid is below some bound (the bound itself plays no role for the builders) -/
+theorem idx_bound (g : Grid) : ∀ t ∈ g.idx, t < g.idx.sum + 1 := by
+  intro t ht
+  have : t ≤ g.idx.sum := mem_le_sum g.idx t ht
+  omega
+
+/-! ## Part 5: sorted cuts that cover the horizon divide the steps into pieces -/
+
+theorem mem_splitPairs_ge : ∀ (cuts : List Int) (a : Int), (a :: cuts).Pairwise (· ≤ ·) →
+    ∀ cd ∈ splitPairs (a :: cuts), a ≤ cd.1
+  | [], _, _ => by intro cd h; simp [splitPairs] at h
+  | b :: rest, a, hs => by
+    intro cd h
+    obtain ⟨h1, h2⟩ := List.pairwise_cons.mp hs
+    simp only [splitPairs, List.mem_cons] at h
+    rcases h with rfl | h
+    · exact Int.le_refl _
+    · exact Int.le_trans (h1 b (by simp)) (mem_splitPairs_ge rest b h2 cd h)
+
+theorem splitPairs_cover : ∀ (cuts : List Int) (a : Int) (p : Int), a ≤ p →
+    (∃ b, (a :: cuts).getLast? = some b ∧ p < b) → ∃ cd ∈ splitPairs (a :: cuts), win cd.1 cd.2 p = true
+  | [], a, p, h1, ⟨b, hb, h2⟩ => by
+    simp at hb; subst hb; omega
+  | b :: rest, a, p, h1, ⟨z, hz, h2⟩ => by
+    by_cases hp : p < b
+    · exact ⟨(a, b), by simp [splitPairs], by simp [win, h1, hp]⟩
+    · have hz' : (b :: rest).getLast? = some z := by
+        rw [List.getLast?_cons_cons] at hz; exact hz
+      obtain ⟨cd, hcd, hw⟩ := splitPairs_cover rest b p (by omega) ⟨z, hz', h2⟩
+      exact ⟨cd, by simp [splitPairs, hcd], hw⟩
+
+theorem splitPairs_disjoint (ref : Grid) (hidx : ref.idx = List.range ref.T) : ∀ (cuts : List Int),
+    cuts.Pairwise (· ≤ ·) → pairwiseDisjoint ((splitPairs cuts).map (intervalSteps ref)) = true
+  | [], _ => rfl
+  | [_], _ => rfl
+  | a :: b :: rest, hs => by
+    obtain ⟨h1, h2⟩ := List.pairwise_cons.mp hs
+    have ih := splitPairs_disjoint ref hidx (b :: rest) h2
+    simp only [splitPairs, List.map_cons, pairwiseDisjoint, Bool.and_eq_true, List.all_eq_true]
+    refine ⟨?_, ih⟩
+    intro J hJ t ht
+    obtain ⟨cd, hcd, rfl⟩ := List.mem_map.mp hJ
+    have hge := mem_splitPairs_ge rest b h2 cd hcd
+    have ht1 := ((mem_intervalSteps ref (a, b) hidx t).mp ht).2
+    rw [Bool.not_eq_true', Bool.eq_false_iff]
+    intro hc
+    have ht2 := ((mem_intervalSteps ref cd hidx t).mp (List.contains_iff_mem.mp hc)).2
+    simp only [win, Bool.and_eq_true, decide_eq_true_eq] at ht1 ht2
+    omega
+
+/-- cuts in increasing order, the first not after any grid point, the last after every grid point: the pairs of
+    consecutive cuts divide the steps of the grid into pieces -/
+theorem cuts_isPartition (ref : Grid) (cuts : List Int) (hidx : ref.idx = List.range ref.T)
+    (hs : cuts.Pairwise (· ≤ ·))
+    (hlo : ∀ p ∈ ref.pts, ∃ a, cuts.head? = some a ∧ a ≤ p)
+    (hhi : ∀ p ∈ ref.pts, ∃ b, cuts.getLast? = some b ∧ p < b) :
+    isPartition ((splitPairs cuts).map (intervalSteps ref)) ref.T = true := by
+  unfold isPartition
+  rw [Bool.and_eq_true]
+  refine ⟨?_, splitPairs_disjoint ref hidx cuts hs⟩
+  rw [List.all_eq_true]
+  intro t ht
+  have htT : t < ref.pts.length := List.mem_range.mp ht
+  have hmem : ref.pts.getD t 0 ∈ ref.pts := by
+    rw [List.getD_eq_getElem?_getD, List.getElem?_eq_getElem htT]
+    exact List.getElem_mem htT
+  obtain ⟨a, ha, hap⟩ := hlo _ hmem
+  obtain ⟨b, hb, hpb⟩ := hhi _ hmem
+  cases cuts with
+  | nil => simp at ha
+  | cons c rest =>
+    simp at ha; subst ha
+    obtain ⟨cd, hcd, hw⟩ := splitPairs_cover rest c _ hap ⟨b, hb, hpb⟩
+    refine List.any_eq_true.mpr ⟨intervalSteps ref cd, List.mem_map_of_mem hcd, ?_⟩
+    exact List.contains_iff_mem.mpr ((mem_intervalSteps ref cd hidx t).mpr ⟨htT, hw⟩)
 
 end EAO.SplitBuild
